@@ -43,6 +43,9 @@ Verdict(C) ==
          Fail((C.nodefunc /\ C.vecfield) => (C.vrep.n > 0 /\ C.vrep.bad = 0), "ReproduceVectorField"),
          \* judged on the reproduced polynomials only: where Reproduce fails the derivatives of a different function are compared
          Fail((C.nodefunc /\ C.rep.bad = 0) => (C.dgrad.bad = 0 /\ C.dhess.bad = 0 /\ (C.hasgrad => C.dgrad.n > 0) /\ (C.hashess => C.dhess.n > 0)), "DerivConsistent"),
+         \* what an evaluator returns for one tag (value, gradient, Hessian) does not depend on which other tags are requested, so
+         \* DerivConsistent - decided on the evaluation with all tags - holds for every configuration an assembler may request
+         Fail(C.cfg.n > 0 /\ C.cfg.bad = 0, "ConfigIndependent"),
          Fail((h1 /\ C.nintfacets > 0) => (C.jump.n > 0 /\ C.jump.bad = 0), "Continuous"),
          Fail((conf = "C1" /\ (el = "argyris" \/ C.axpar)) => C.gjump.bad = 0, "GradContinuous"),
          Fail((conf = "NC" /\ C.nintfacets > C.nonplanar) => (C.mjump.n > 0 /\ C.mjump.bad = 0), "FacetMeanContinuous"),
